@@ -187,7 +187,11 @@ Negate(a) == IF ~IsNum(a) THEN Err("type")
 
 Printable == " !\"#$%&'()*+,-./0123456789:;<=>?@ABCDEFGHIJKLMNOPQRSTUVWXYZ[\\]^_`abcdefghijklmnopqrstuvwxyz{|}~"
 Ch(s, i) == SubSeq(s, i, i)
-Ord(c) == 31 + (CHOOSE i \in 1..Len(Printable) : Ch(Printable, i) = c)
+(* Model strings are BYTE strings.  The characters "{" and "|" stand for the two bytes 0xC3 0xA9 of the rune *)
+(* U+00E9 (the harness maps them both ways), so that a member value can hold a multi-byte rune: len counts   *)
+(* its two bytes, a slice may cut it in two, comparison and indexing see the byte values.                   *)
+Ord(c) == IF c = "{" THEN 195 ELSE IF c = "|" THEN 169
+          ELSE 31 + (CHOOSE i \in 1..Len(Printable) : Ch(Printable, i) = c)
 
 RECURSIVE StrCmpFrom(_, _, _)
 StrCmpFrom(a, b, i) ==
